@@ -1003,7 +1003,7 @@ const rule = "Histories of Add/Push/Pop/PopLast/Clear/Peek(any int) on queue.Que
 	"Push on a fresh preallocated ring (head wraps below 0), PopLast with the newest element at every index around the boundary; " +
 	"every (len, head) position of an exactly full ring up to len 12 (quick) / 24 (thorough) reached by Add and by Push and regrown from either end (Rotate with one and several cycles); " +
 	"Clear then reuse past the next regrowths; PopLast/Pop down to empty then Push/Add; explicit Peek ops at the ends of the int range (math.MinInt, MinInt+Len, MaxInt, ...); " +
-	"long random phase mixes with Clear mid-way; U lines: the same operations on queue.Queue[struct{}] (lengths and flags only) from small capacities and from NewSize(2^40 .. math.MaxInt), around the 2^62 bound of C07_history64 and above it (known finding F11). After the construction and after EVERY operation the record holds the return value, head/n/len(vs) " +
+	"long random phase mixes with Clear mid-way; B lines (scale stream, batched ops, bounded records with FNV digests of long sequences): buffers of 3..129, 255..257, 511..513, 1000, 1023..1025, 2047..2049, 4095..4097 (thorough: 8191..8193 and random large) slots from NewSize and grown from the zero value (by Add or from both ends), filled exactly with the head at 0, 1, n/4, n/2, 3n/4, n-1, at the size of the space append adds (-1, +0, +1) and at a random index (reached by Pop+Add or by Push wrapping below 0), regrown by Add and by Push, then Slice/Each/Each-stopped over all elements and Peek at both ends, around 0, around the old wrap point and on a sweep of offsets, refilled exactly and regrown again or drained to 1/8..1/2 and regrown, drained from both ends past empty; grow-drain-regrow cycles (quick: one (regrowing end, origin) pair per size and depth up to 1025 and three cases above; thorough: the whole product up to 1025, a half/quarter above); U lines: the same operations on queue.Queue[struct{}] (lengths and flags only) from small capacities and from NewSize(2^40 .. math.MaxInt), around the 2^62 bound of C07_history64 and above it (known finding F11). After the construction and after EVERY operation the record holds the return value, head/n/len(vs) " +
 	"(hook), Len, IsEmpty, Front, Slice, Each (complete and stopped half-way) and Peek(k) for every k from -(Len+2) to Len+1. " +
 	"A case is non-trivial when it reached at least one named state (tags: ring wrapped, full with head in the middle, rotate-then-grow by Add/Push, " +
 	"push wraps head below 0, PopLast/Pop/Add wrap, emptied with head reset, Clear of a non-empty queue, Pop on empty); distinct = distinct input lines."
